@@ -43,6 +43,25 @@ PARTIAL = ['completeness (a disjoint solution is found whenever one exists) is p
            'requests only; for larger or overlapping synchronisation vectors only soundness is claimed: the first '
            'combination of one vector can exclude every combination of another (step 5 has no backtracking)']
 
+MANIFEST = {
+    'text': 'Lean 4 theorems over a model of compute_path_dsjctn steps 2-5 (candidate combinations, Python '
+            'remove-while-iterating pruning, constraint filter with alternates, first-combination selection with '
+            'remove_candidate): selection_sound - for ANY set of synchronisation vectors (pairs, larger, overlapping) every '
+            'request gets one path and any two requests of a vector get paths that passed the disjointness test, else '
+            'the result is a DisjunctionError; isdisjoint_test_iff_linkDisjoint - the code\'s isdisjoint test on its short '
+            'lists, applied in both directions, is exactly "no common ROADM-to-ROADM link, a link and its opposite '
+            'identified"; pair_complete + disjointOracle_iff - for one pair of requests an error occurs iff no acceptable '
+            'link-disjoint pair of candidates (<= 80 hops) exists. The selection model is fed with the real candidate '
+            'lists and compared path-by-path with the code on every run; returned paths go through the verified checker '
+            'and an independent OMS-based monitor.',
+    'note': 'networkx all_simple_paths is not modelled (its candidate lists are inputs of the selection model); '
+            'requests_aggregation / deduplicate_disjunctions are observed through the monitor only. Completeness is claimed '
+            'for a single pair only. Trusted base: Lean 4.33 kernel (+ leanchecker in thorough), Mathlib v4.33, axioms '
+            'propext/Classical.choice/Quot.sound only.',
+    'technique': 'Lean 4 theorems over an executable model of the candidate selection + verified disjointness checker and '
+                 'pair oracle, differential correspondence against the real code, independent monitor',
+}
+
 S, L = 'STRICT', 'LOOSE'
 
 
@@ -353,6 +372,25 @@ def run(case, drv):
                       'with_includes': int(any(r['inc'] for r in reqs))})
     res.nontrivial = nontrivial
     return res
+
+
+# --------------------------------------------------------------------------------------------------------------------
+# exhaustive small scope (thorough tier): every connected topology on 2..5 ROADMs up to isomorphism; n <= 4: every
+# unordered pair of requests; n = 5: every request with its 1+1 twin and with its reverse
+# --------------------------------------------------------------------------------------------------------------------
+
+def exhaustive():
+    for n, edges in meshes.small_topologies(5):
+        mesh = meshes.small_mesh(n, edges)
+        ends = [(s, t) for s in range(n) for t in range(n) if s != t]
+        if n <= 4:
+            combos = [(x, y) for i, x in enumerate(ends) for y in ends[i:]]
+        else:
+            combos = [(x, x) for x in ends] + [(x, (x[1], x[0])) for x in ends if x[0] < x[1]]
+        for (s1, t1), (s2, t2) in combos:
+            yield {'kind': 'disj', 'mesh': mesh, 'via': 'dsjctn', 'sync': [[0, 1]],
+                   'reqs': [{'id': 0, 'src': ['T', s1], 'dst': ['T', t1], 'inc': [], 'bidir': False, 'mode': 'mode 1'},
+                            {'id': 1, 'src': ['T', s2], 'dst': ['T', t2], 'inc': [], 'bidir': False, 'mode': 'mode 1'}]}
 
 
 # --------------------------------------------------------------------------------------------------------------------
